@@ -165,8 +165,8 @@ def check(ctx, otree, leaves0, odsl, cfg):  # noqa: C901, PLR0912, PLR0915
 
 
 def run_shard(ctx):
-    preds = ['none', 'is_tuple', 'custom']
-    modes = ['sorted', 'ins_ns'] if ctx.tier == 'quick' else None
+    preds = ['none', 'is_tuple'] if ctx.tier == 'quick' else ['none', 'is_tuple', 'custom']
+    modes = None
     e1.drive(ctx, ctx.tier, lambda tree, leaves, dsl, cfg: check(ctx, tree, leaves, dsl, cfg),
              profile='tiny', cfgs=e1.configs(ctx.tier, predicates=preds, modes=modes))
 
